@@ -182,6 +182,8 @@ class Exec:
         try:
             return list(el.children)
         except Exception as e:   # `.children` itself breaks on a container holding raw values
+            if type(e).__name__ == "CaseTimeout":
+                raise              # core's per-case alarm: not an observation
             self.nav_errors.append(exc_name(e))
             return []
 
